@@ -11,7 +11,7 @@ use utils::singleflight::{Group, SingleflightError};
 
 use crate::engine::{Case, Ctx};
 
-pub const RULE: &str = "scripts of events {Call(key in 3 keys, outcome Ok / Err / Panic, gate in 4 gates, yields before the call), Release(gate), Yield(n)} with 1-12 callers; every supplied task logs its start, waits for its gate and returns its outcome tagged with the caller id; remaining gates are released at the end. Mode A: current-thread runtime with a paused (virtual) clock - deterministic, and a caller that would wait forever trips a 1-hour virtual timeout as soon as the runtime is idle. Mode B: the same scripts on a 2-4 worker multi-thread runtime (real parallelism; a hang there is inconclusive, a wrong outcome is a violation). Oracle over the event log (logical timestamps): tasks started = calls reporting ownership; an owner's own task started exactly once and a non-owner's never; an owner receives its own value / error / join error; every non-owner result names an owner of the same key whose call interval overlaps its own and whose outcome kind matches (value id, error payload, or panic notification); all callers return. non-trivial = script in which >= 2 waiters joined one flight and a later call on the same key started a new flight; distinct by fingerprint of the script";
+pub const RULE: &str = "scripts of events {Call(key in 3 keys, outcome Ok / Err / Panic, gate in 4 gates, yields before the call), Release(gate), Yield(n)} with 1-12 callers; every supplied task logs its start, waits for its gate and returns its outcome tagged with the caller id; remaining gates are released at the end. Mode A: current-thread runtime with a paused (virtual) clock and a generated plan of cooperative yields at three guarded points inside Group::work (after the call-map lookup, after the result future is created, before the owner removes the call) - deterministic, and a caller that would wait forever trips a 1-hour virtual timeout as soon as the runtime is idle. Mode B: the same scripts on a 2-4 worker multi-thread runtime (real parallelism; a hang there is inconclusive, a wrong outcome is a violation). Oracle over the event log (logical timestamps): tasks started = calls reporting ownership; an owner's own task started exactly once and a non-owner's never; an owner receives its own value / error / join error; every non-owner result names an owner of the same key whose call interval overlaps its own and whose outcome kind matches (value id, error payload, or panic notification); all callers return. non-trivial = script in which >= 2 waiters joined one flight and a later call on the same key started a new flight; distinct by fingerprint of the script";
 
 pub const ASSUMPTIONS: &[&str] = &[
     "callers are not cancelled while waiting (the property does not cover dropped callers)",
@@ -29,6 +29,9 @@ pub enum Ev {
 pub struct Script {
     pub events: Vec<Ev>,
     pub workers: u8,
+    /// generated yields at the guarded points inside Group::work (mode A only)
+    #[serde(default)]
+    pub yield_plan: Vec<u8>,
 }
 
 fn ev_strategy() -> impl Strategy<Value = Ev> {
@@ -40,7 +43,7 @@ fn ev_strategy() -> impl Strategy<Value = Ev> {
 }
 
 fn script_strategy() -> impl Strategy<Value = Script> {
-    (proptest::collection::vec(ev_strategy(), 1..30), 2u8..=4).prop_map(|(mut events, workers)| {
+    (proptest::collection::vec(ev_strategy(), 1..30), 2u8..=4, proptest::collection::vec(prop_oneof![3 => Just(0u8), 2 => 1u8..4], 0..12)).prop_map(|(mut events, workers, yield_plan)| {
         // at most 12 callers
         let mut n = 0;
         events.retain(|e| {
@@ -51,7 +54,7 @@ fn script_strategy() -> impl Strategy<Value = Script> {
                 true
             }
         });
-        Script { events, workers }
+        Script { events, workers, yield_plan }
     })
 }
 
@@ -270,7 +273,13 @@ fn labels(info: &mut Case, script: &Script, v: &Verdict) {
 
 fn mode_a(script: &Script, info: &mut Case) -> Result<(), String> {
     let rt = tokio::runtime::Builder::new_current_thread().enable_all().start_paused(true).build().map_err(|e| format!("[sig:infra] runtime: {e}"))?;
-    let log = rt.block_on(run_script(script, true)).map_err(|e| format!("[sig:c20-hang] {e}"))?;
+    utils::verif_hooks::set_yield_plan(Some(script.yield_plan.clone()));
+    let r = rt.block_on(run_script(script, true));
+    utils::verif_hooks::set_yield_plan(None);
+    let log = r.map_err(|e| format!("[sig:c20-hang] {e}"))?;
+    if !script.yield_plan.is_empty() {
+        info.label("internal-yield-plan");
+    }
     let v = judge(&log)?;
     labels(info, script, &v);
     Ok(())
